@@ -809,7 +809,9 @@ def rules(tier):
             # C04-ca: the remaining size lands in is_honeyword - one random value per group instead of the product
             ('C04.R19', _shared_rule('c17', 'r1_size_bound')),
             # C04-da: save_session writes cur_len, cur_ip in the other order than load_session reads them
-            ('C04.R20', _shared_rule('c15', 'r3_pickle_layout'))] + _loader_bundle() + []
+            ('C04.R20', _shared_rule('c15', 'r3_pickle_layout')),
+            # mutation sweep: create_guesses routing flipped
+            ('C04.R21', _shared_rule('plumbing', 'generator_glue'))] + _loader_bundle() + []
 
 
 META = {
